@@ -12,7 +12,7 @@ ROOT = Path(__file__).resolve().parent.parent
 TABLE = {
     "C01": ("exploration", "Hypothesis-generated sessions (channels x sends x per-datagram fate lists) on a virtual-time loop; transcript reference model checked at every message event",
             "Generated-input search: thousands of simulated SCTP sessions per run under generated drop/dup/delay schedules, compared with an exactly-once/in-order transcript model after every delivery. Exploration is the right level: the space is schedules x traffic and is sampled, not enumerated.",
-            "Trusted: the in-memory link models a datagram network whose send does not yield (host-candidate path); aiortc's DTLS layer is replaced by a pass-through fake; asyncio itself.", "2/C01"),
+            "Trusted: the in-memory link (one family each for a send that suspends, as over a TURN relay, and for a sender that bundles chunks); aiortc's DTLS layer is replaced by a pass-through fake; asyncio itself.", "2/C01"),
     "C02": ("exploration", "Hypothesis-generated fault prefixes followed by a fault-free suffix on a virtual clock; bounded-liveness oracle (quiescence or provable stall)",
             "Liveness decided as bounded liveness under a harness-owned clock: after the finite fate lists are used up the simulation must reach idle with every queue empty and everything delivered; deadlock (idle with work outstanding) and livelock (repeated T3 without progress) are deterministic verdicts.",
             "Trusted: virtual-time loop, fake DTLS link; a stall that needs more than the step budget of continuous progress is reported inconclusive, not a pass.", "2/C02"),
@@ -22,10 +22,10 @@ TABLE = {
     "C04": ("exploration", "Hypothesis-generated fingerprint lists, SRTP profile lists, roles and traffic over two real RTCDtlsTransport objects on a dummy ICE pair; reference fingerprint policy + delivery oracle",
             "Configuration matrix x inputs, sampled; reference policy written from the statement.",
             "Trusted: OpenSSL handshake and pylibsrtp; handshake flights are never dropped (OpenSSL's retransmission timer is not owned by the harness).", "2/C04"),
-    "C05": ("exploration", "Coverage-guided fuzzing (atheris) of every wire parser plus Hypothesis structure-aware mutants and stateful injection into live SCTP associations / RTP receivers; oracle: only ValueError, bounded work, transport still carries valid traffic",
+    "C05": ("exploration", "Coverage-guided fuzzing (atheris) of every wire parser plus Hypothesis structure-aware mutants, stateful injection into live SCTP associations / RTP receivers and arbitrary datagrams at the real DTLS transport receive entry in every state; oracle: only ValueError, bounded work, transport still carries valid traffic",
             "Byte-level and structure-aware search with exception, work-bound and liveness oracles.",
             "Trusted: the work bound is a deterministic count of executed Python lines (sys.monitoring), not wall time; atheris campaigns are only approximately seed-reproducible - the saved input is the reproducible unit.", "2/C05"),
-    "C06": ("exploration", "Hypothesis-generated sessions mixing reliable and partially reliable channels under loss bursts; transcript model (exact copy, no duplicates, order) plus post-recovery probes on every channel",
+    "C06": ("exploration", "Hypothesis-generated sessions mixing reliable and partially reliable channels under loss bursts, plus a family concentrated on lost / late FORWARD-TSN and SACK; transcript model (exact copy, no duplicates, order) plus post-recovery probes on every channel",
             "Sampled schedules x channel mixes; non-trivial only when a FORWARD-TSN was actually put on the wire.",
             "Trusted: as C01.", "2/C06"),
     "C07": ("exploration", "Hypothesis round-trip and reference-model checks over RTP/RTCP packets, header extension maps, NACK sets, loss clamp, REMB mantissa/exponent, RTX wrap/unwrap",
@@ -37,13 +37,13 @@ TABLE = {
     "C09": ("exploration", "Hypothesis-built SessionDescription objects, pc-generated offers/answers and line-mutated SDP texts; fixed-point / idempotence / field-recovery oracles; candidate line round trip",
             "Sampled inputs x configurations; idempotence and field recovery are exact string/field comparisons.",
             "Trusted: nothing beyond the interpreter (pc-generated family additionally trusts aioice gathering).", "2/C09"),
-    "C10": ("exploration", "Hypothesis-generated arrival histories (arbitrary / bounded lateness / complete-displaced, interactive draws) against a token-based frame-integrity oracle and capacity/PLI invariants",
+    "C10": ("exploration", "Hypothesis-generated arrival histories (arbitrary / bounded lateness / complete-displaced, interactive draws) against a token-based frame-integrity oracle and capacity/PLI invariants; a real RTCRtpReceiver compared with what the buffer returned",
             "Histories are sampled; oracle is independent of the implementation (tokens identify each arrival).",
             "Trusted: none beyond the interpreter; PLI clause reads the anchored _packets ring.", "2/C10"),
     "C11": ("exploration", "Hypothesis-generated loss/dup/reorder schedules over a real RTCRtpSender/RTCRtpReceiver pair on real DTLS transports (virtual time); decoder tap compared with the sender's packetised frames; NACK/RTX recovery model",
             "Closed-loop simulation, sampled schedules.",
             "Trusted: OpenSSL/libsrtp, the decoder thread is replaced by a tap as the property's hook note says.", "2/C11"),
-    "C12": ("exploration", "Hypothesis stateful histories of register/unregister/route against an independent routing-table model",
+    "C12": ("exploration", "Hypothesis stateful histories of register/unregister/route against an independent routing-table model, on the router and through a real RTCDtlsTransport",
             "Operation histories sampled; invariant checked after every step.",
             "Trusted: none beyond the interpreter.", "2/C12"),
     "C13": ("exploration", "Hypothesis-generated create/send/close/stop programs with Unicode labels under fate lists; event-history oracle for readyState, datachannel events, ids and bufferedAmount",
